@@ -102,3 +102,75 @@ Definition ex_scall : scall :=
                {| d_key := k_l; d_kind := KList; d_default := VList [4]%Z |}];
      s_subenv := [(k_x, VTok 3)];
      s_subargv := [AAsg (k_l, Append (VTok 9))] |}.
+
+(* ---- the subcommand level: statement and three witnesses of the unchanged code's deviations --------------- *)
+Definition sub_precedence_statement (sc : scall) : Prop :=
+  wf_scall sc = true ->
+  exists t, pipeline_sub sc = Ok t /\ observe_values (all_decls sc) t = final_values_sub sc.
+
+Definition sub_outcome (sc : scall) : option (list val) :=
+  match pipeline_sub sc with Ok t => Some (observe_values (all_decls sc) t) | Unrecognized => None end.
+
+Lemma sub_refute sc o :
+  wf_scall sc = true -> sub_outcome sc = o -> o <> Some (final_values_sub sc) -> ~ sub_precedence_statement sc.
+Proof.
+  intros W E N H. destruct (H W) as (t & P & V). unfold sub_outcome in E. rewrite P, V in E. congruence.
+Qed.
+
+Definition mk_parent (p : parser) (pats : list (list (str * doc))) (envcfg : option doc) (argv : list arg) : call :=
+  {| c_parser := p; c_default_env := true; c_os_default_env := None; c_env_arg := None;
+     c_patterns := pats; c_envcfg := envcfg; c_envvars := []; c_entry := EArgs argv |}.
+
+(* class 3: CFG='{"f": {"x": 8}}', F__X=11, parse_args(['f']): the code gives f.x = 8, the documented order 11 *)
+Definition shadowed_scall : scall :=
+  {| s_parent := mk_parent [{| d_key := k_k; d_kind := KScalar; d_default := VTok 1 |}] [] (Some [(n_f :: k_x, Set_ (VTok 8))]) [];
+     s_name := n_f; s_sub := [{| d_key := k_x; d_kind := KScalar; d_default := VTok 2 |}];
+     s_subenv := [(k_x, VTok 11)]; s_subargv := [] |}.
+
+Lemma shadowed_facts :
+  wf_scall shadowed_scall = true /\ scall_class shadowed_scall = 3%N /\
+  final_values_sub shadowed_scall = [VTok 1; VTok 11] /\ sub_outcome shadowed_scall = Some [VTok 1; VTok 8].
+Proof. vm_compute. repeat split; reflexivity. Qed.
+
+Lemma subenv_shadowed_refuted : exists sc, scall_class sc = 3%N /\ ~ sub_precedence_statement sc.
+Proof.
+  exists shadowed_scall. destruct shadowed_facts as (W & C & F & O). split; [exact C|].
+  eapply sub_refute; eauto. rewrite F. discriminate.
+Qed.
+
+(* class 5: parent l = [1], subcommand f with l = [4]; --cfg '{"f": {"l+": [7]}}' f: the code gives
+   f.l = [1; 7] (the parent's list), the documented fold [4; 7] *)
+Definition section_append_scall : scall :=
+  {| s_parent := mk_parent [{| d_key := k_l; d_kind := KList; d_default := VList [1]%Z |}] [] None
+                           [ACfg [(n_f :: k_l, Append (VList [7]%Z))]];
+     s_name := n_f; s_sub := [{| d_key := k_l; d_kind := KList; d_default := VList [4]%Z |}];
+     s_subenv := []; s_subargv := [] |}.
+
+Lemma section_append_facts :
+  wf_scall section_append_scall = true /\ scall_class section_append_scall = 5%N /\
+  final_values_sub section_append_scall = [VList [1]%Z; VList [4; 7]%Z] /\
+  sub_outcome section_append_scall = Some [VList [1]%Z; VList [1; 7]%Z].
+Proof. vm_compute. repeat split; reflexivity. Qed.
+
+Lemma section_append_refuted : exists sc, scall_class sc = 5%N /\ ~ sub_precedence_statement sc.
+Proof.
+  exists section_append_scall. destruct section_append_facts as (W & C & F & O). split; [exact C|].
+  eapply sub_refute; eauto. rewrite F. discriminate.
+Qed.
+
+(* class 4: a default config file "k: 6" and parse_args(['f']): the code raises, the documented order applies the file *)
+Definition dcf_scall : scall :=
+  {| s_parent := mk_parent [{| d_key := k_k; d_kind := KScalar; d_default := VTok 1 |}] [[([97%N], [(k_k, Set_ (VTok 6))])]] None [];
+     s_name := n_f; s_sub := [{| d_key := k_x; d_kind := KScalar; d_default := VTok 2 |}];
+     s_subenv := []; s_subargv := [] |}.
+
+Lemma dcf_facts :
+  wf_scall dcf_scall = true /\ scall_class dcf_scall = 4%N /\
+  final_values_sub dcf_scall = [VTok 6; VTok 2] /\ sub_outcome dcf_scall = None.
+Proof. vm_compute. repeat split; reflexivity. Qed.
+
+Lemma dcf_without_section_refuted : exists sc, scall_class sc = 4%N /\ ~ sub_precedence_statement sc.
+Proof.
+  exists dcf_scall. destruct dcf_facts as (W & C & F & O). split; [exact C|].
+  eapply sub_refute; eauto. discriminate.
+Qed.
